@@ -34,7 +34,10 @@ class Findings:
             e["examples"].append(example)
 
     def report(self, rep, seed):
-        for (kind, key), e in sorted(self.by_key.items()):
+        order = ["delta-panic", "delta-xml", "delta-tree", "delta-rejects-valid", "alpha-panic", "alpha-tree",
+                 "panic", "rebuild-error", "rebuild-unparsable", "rebuild-tree", "rebuild-unstable", "corpus-tree", "trace"]
+        rank = lambda kk: (order.index(kk[0][0]) if kk[0][0] in order else len(order), kk[0])
+        for (kind, key), e in sorted(self.by_key.items(), key=rank):
             rep.violation(kind, key, {"kind": kind, "key": key, "inputs_affected_this_run": e["count"], "seed": seed,
                                       "examples": e["examples"], "how": "bin/check %s --replay <this file>" % rep.prop})
 
